@@ -370,7 +370,9 @@ def sweep_cases(maxsize, ps, patlen):
 
 # ---------------------------------------------------------------- end-to-end cases on the real binary
 
-NAMES = ["a", "b.txt", "data.bin", "x y", "Zed", "mü", "0", "readme.md", "long-name-with-dashes", "q"]
+# "mu\u0308" / "m\u00fc": the same text decomposed and composed - two different files here (names are bytes, never normalised;
+# added after seeded change C01-12, listed names put into NFC)
+NAMES = ["a", "b.txt", "data.bin", "x y", "Zed", "m\u00fc", "mu\u0308", "0", "readme.md", "long-name-with-dashes", "q"]
 DIRS = ["", "", "sub", "sub/deep", "other", "sub/deep/er"]
 
 
@@ -683,6 +685,17 @@ def run_e2e(ctx, n):
         {"shape": "dir", "p": 1, "md5": True, "files": [("a", 64, 20), ("b", 300, 19)], "out": "-", "globals": ["--terminal"]},
         {"shape": "file", "p": 16384, "md5": True, "files": [("zeros", 16384 * 120 + 5, 32)], "out": "-", "globals": ["-t"]},
         {"shape": "stdin", "p": 2, "md5": True, "files": [("s", 900, 35)], "out": "-", "bursts": [450, 450], "globals": ["--terminal"]},
+        # a piece and a read longer than 1 MiB, not a whole number of MiB, with the progress bar drawn (added after seeded change
+        # C01-10: the bar advanced per MiB slice and the last, shorter slice of a read was not hashed)
+        {"shape": "file", "p": 4 << 20, "md5": True, "files": [("bar", (3 << 20) + (1 << 19) + 7, 41)], "out": "-",
+         "globals": ["--terminal", "--color", "always"]},
+        {"shape": "dir", "p": 2 << 20, "md5": False, "files": [("a", (1 << 20) + (1 << 19) + 3, 42), ("b", (2 << 20) + 700001, 43)],
+         "out": "out.torrent", "globals": ["-t"]},
+        {"shape": "stdin", "p": 3 << 20, "md5": True, "files": [("s", (5 << 20) + 11, 44)], "out": "-", "bursts": [(5 << 20) + 11],
+         "globals": ["--terminal", "--color", "always"]},
+        # the same name decomposed and composed side by side: two files, two entries, each with its own bytes (C01-12)
+        {"shape": "dir", "p": 16, "md5": True, "files": [("e\u0301.txt", 40, 45), ("\u00e9.txt", 53, 46), ("sub/A\u030a", 7, 47),
+                                                           ("sub/\u00c5", 9, 48)], "out": "-"},
     ]
     cases = [dict(c, kind="e2e", id=-1 - i) for i, c in enumerate(fixed)] + cases
     tmp = tempfile.mkdtemp(prefix="c01-")
